@@ -353,6 +353,8 @@ def run(ctx, P):
     r2.expiry_only_brought_forward(ctx, P, "C05h")
     r2.srv_expiry_reported_for_every_listing(ctx, P, "C05i")
     r2.events_are_lossless(ctx, P, "C05j")
+    r2.verify_always_shortens(ctx, P, "C05k")
+    r2.every_answer_reaches_the_cache(ctx, P, "C05l")
     clause_f(ctx, P)
     clause_ab(ctx, P)
     clause_c(ctx, P)
